@@ -21,6 +21,12 @@ def brName : List B := [98, 114]
 /-- ASCII word byte (`\b` of RE2 is the ASCII word boundary) -/
 def wordB (b : B) : Bool := (b ≥ 48 && b ≤ 57) || (b ≥ 65 && b ≤ 90) || (b ≥ 97 && b ≤ 122) || b == 95
 
+/-- is the last byte of the matched name an ASCII word byte (it is not when the name ends in the Kelvin sign) -/
+def lastWord (c : List B) : Bool :=
+  match c.getLast? with
+  | some l => wordB l
+  | none => false
+
 /-- a match of `(names)\b([^>]*)/>` behind a `<`: (which name, the matched bytes without `<` and the final `/>`, what follows) -/
 def voidAtB (rest : List B) : Option (List B × List B × List B) :=
   names.findSome? fun n =>
@@ -32,7 +38,7 @@ def voidAtB (rest : List B) : Option (List B × List B × List B) :=
       | x :: _ =>
         -- `\b`: exactly one of the two neighbours is an ASCII word byte (a name that ends in the Kelvin sign has no
         -- boundary behind it)
-        if wordB x == (match c.getLast? with | some l => wordB l | none => false) then none else
+        if wordB x == lastWord c then none else
         match firstGt rem with
         | none => none
         | some g =>
@@ -79,5 +85,147 @@ theorem normF_no_lt : ∀ (fuel : Nat) (s : List B), (∀ b ∈ s, b ≠ 60) →
     have hb : (b == 60) = false := by simpa using h b (by simp)
     simp only [normF, hb, Bool.false_eq_true, if_false]
     rw [normF_no_lt fuel r (fun x hx => h x (by simp [hx]))]
+
+/-! ### what the tag scan keeps: everything but white space and slashes -/
+
+/-- the bytes that are neither white space nor `/` -/
+def inkS (s : List B) : List B := s.filter (fun b => !(Gomjml.TextFlow.isWs b || b == 47))
+
+theorem inkS_append (a b : List B) : inkS (a ++ b) = inkS a ++ inkS b := by simp [inkS]
+theorem inkS_cons (x : B) (r : List B) : inkS (x :: r) = (if Gomjml.TextFlow.isWs x || x == 47 then [] else [x]) ++ inkS r := by
+  unfold inkS
+  rw [List.filter_cons]
+  by_cases h : (Gomjml.TextFlow.isWs x || x == 47) = true
+  · simp only [h, Bool.not_true, Bool.false_eq_true, if_false, if_true, List.nil_append]
+  · have h' : (Gomjml.TextFlow.isWs x || x == 47) = false := by simpa using h
+    simp only [h', Bool.not_false, if_true, Bool.false_eq_true, if_false, List.singleton_append]
+
+theorem dropWhile_ws_inkS (s : List B) : inkS (s.dropWhile Gomjml.TextFlow.isWs) = inkS s := by
+  induction s with
+  | nil => rfl
+  | cons b r ih =>
+    by_cases h : Gomjml.TextFlow.isWs b = true
+    · simp [List.dropWhile, h, inkS_cons, ih]
+    · have : Gomjml.TextFlow.isWs b = false := by simpa using h
+      simp [List.dropWhile, this]
+
+theorem inkS_reverse (s : List B) : inkS s.reverse = (inkS s).reverse := by simp [inkS, List.filter_reverse]
+
+theorem trimRightWs_inkS (s : List B) : inkS (trimRightWs s) = inkS s := by
+  unfold trimRightWs
+  rw [inkS_reverse, dropWhile_ws_inkS, inkS_reverse, List.reverse_reverse]
+
+/-- a match covers `pre` and the `/>` behind it -/
+theorem voidAtB_split (rest n pre after : List B) (h : voidAtB rest = some (n, pre, after)) : rest = pre ++ [47, 62] ++ after := by
+  unfold voidAtB at h
+  obtain ⟨nm, _, hn⟩ := List.exists_of_findSome?_eq_some h
+  split at hn
+  · simp at hn
+  · rename_i c rem hmf
+    split at hn
+    · simp at hn
+    · rename_i x xs
+      split at hn
+      · simp at hn
+      · split at hn
+        · simp at hn
+        · rename_i g _
+          split at hn
+          · simp at hn
+          · split at hn
+            · rename_i aft hdrop
+              simp at hn
+              obtain ⟨_, rfl, rfl⟩ := hn
+              have h1 := matchFold_split nm rest c (x :: xs) hmf
+              have h2 : (x :: xs) = (x :: xs).take (g - 1) ++ (x :: xs).drop (g - 1) := (List.take_append_drop _ _).symm
+              rw [hdrop] at h2
+              rw [h1]
+              conv => lhs; rw [h2]
+              simp
+            · simp at hn
+
+/-- **the tag scan rewrites spelling only**: every byte that is neither white space nor a slash comes out, once, in order -/
+theorem normF_inkS : ∀ (fuel : Nat) (s : List B), inkS (normF fuel s) = inkS s
+  | 0, s => by simp [normF]
+  | _ + 1, [] => by simp [normF]
+  | fuel + 1, b :: rest => by
+    unfold normF
+    by_cases hb : (b == 60) = true
+    · simp only [hb, if_true]
+      split
+      · rename_i n pre after hv
+        have hs := voidAtB_split rest n pre after hv
+        have hb' : b = 60 := by simpa using hb
+        subst hb'
+        rw [inkS_append, inkS_append, trimRightWs_inkS, normF_inkS fuel after]
+        have hmid : inkS (if n == brName then ([62] : List B) else [32, 47, 62]) = [62] := by split <;> decide
+        have hrhs : inkS (60 :: (pre ++ [47, 62] ++ after)) = inkS (60 :: pre) ++ [62] ++ inkS after := by
+          rw [show (60 :: (pre ++ [47, 62] ++ after) : List B) = (60 :: pre) ++ [47, 62] ++ after from by simp]
+          rw [inkS_append, inkS_append]
+          have : inkS ([47, 62] : List B) = [62] := by decide
+          rw [this]
+        rw [hmid]
+        conv => rhs; rw [hs, hrhs]
+      · rw [inkS_cons, inkS_cons, normF_inkS fuel rest]
+    · have hb' : (b == 60) = false := by simpa using hb
+      simp only [hb', Bool.false_eq_true, if_false]
+      rw [inkS_cons, inkS_cons, normF_inkS fuel rest]
+
+/-- every segment of a replacement pass is kept text or the one replacement -/
+theorem replSegs_all (old new : List B) (P : Seg → Prop) (hk : ∀ bs, P (.keep bs)) (hr : P (.repl old new)) :
+    ∀ (n : Nat) (s : List B), s.length ≤ n → ∀ g ∈ replSegs old new s, P g := by
+  intro n
+  induction n with
+  | zero =>
+    intro s hs
+    have : s = [] := List.eq_nil_of_length_eq_zero (by omega)
+    subst this
+    unfold replSegs; by_cases ho : old = []
+    · simp only [ho, dite_true]; intro g hg; simp at hg; subst hg; exact hk _
+    · simp only [ho, dite_false]; intro g hg; simp at hg
+  | succ n ih =>
+    intro s hs
+    unfold replSegs
+    by_cases ho : old = []
+    · simp only [ho, dite_true]; intro g hg; simp at hg; subst hg; exact hk _
+    · simp only [ho, dite_false]
+      cases s with
+      | nil => intro g hg; simp at hg
+      | cons b rest =>
+        have hpos : 0 < old.length := by cases old <;> simp_all
+        by_cases hp : old.isPrefixOf (b :: rest) = true
+        · simp only [hp, if_true]
+          intro g hg
+          rcases List.mem_cons.mp hg with rfl | hg
+          · exact hr
+          · exact ih _ (by simp only [List.length_drop, List.length_cons] at hs ⊢; omega) g hg
+        · have hp' : old.isPrefixOf (b :: rest) = false := Bool.eq_false_iff.mpr hp
+          simp only [hp', Bool.false_eq_true, if_false]
+          intro g hg
+          rcases List.mem_cons.mp hg with rfl | hg
+          · exact hk _
+          · exact ih rest (by simp at hs; omega) g hg
+
+theorem segs_inkS : ∀ (l : List Seg), (∀ g ∈ l, inkS g.src = inkS g.dst) → inkS (srcOf l) = inkS (dstOf l)
+  | [], _ => rfl
+  | g :: l, h => by
+    rw [srcOf_cons, dstOf_cons, inkS_append, inkS_append, h g (by simp), segs_inkS l (fun x hx => h x (by simp [hx]))]
+
+/-- a replacement that changes white space and slashes only keeps everything else -/
+theorem replaceAll_inkS (old new s : List B) (h : inkS old = inkS new) : inkS (replaceAll old new s) = inkS s := by
+  rw [← replSegs_dst old new s.length s (Nat.le_refl _)]
+  conv => rhs; rw [← replSegs_src old new s.length s (Nat.le_refl _)]
+  exact (segs_inkS _ (replSegs_all old new (fun g => inkS g.src = inkS g.dst) (fun _ => rfl) h s.length s (Nat.le_refl _))).symm
+
+/-- **the whole normaliser rewrites spelling only**: tags are re-spelt, blanks next to `<br>` go — every byte that is
+    neither white space nor a slash comes out, once, in order -/
+theorem normalize_inkS (s : List B) : inkS (normalize s) = inkS s := by
+  unfold normalize
+  simp only
+  split
+  · unfold trimBR
+    rw [replaceAll_inkS _ _ _ (by decide), replaceAll_inkS _ _ _ (by decide), replaceAll_inkS _ _ _ (by decide),
+      replaceAll_inkS _ _ _ (by decide), normF_inkS]
+  · exact normF_inkS _ s
 
 end Gomjml.TextVoid
